@@ -29,7 +29,7 @@ import (
 	"verifharness/internal/sexp"
 )
 
-var composedKinds = []string{"plain", "args", "hostile", "renamed", "args-renamed", "mutated", "raw", "vars", "args-vars", "args-lexical", "sub", "sub", "sub-renamed", "sub-vars", "async", "args-async"}
+var composedKinds = []string{"plain", "args", "hostile", "renamed", "args-renamed", "mutated", "raw", "vars", "args-vars", "args-lexical", "sub", "sub", "sub-renamed", "sub-vars", "async", "args-async", "async", "async"}
 
 var quotedLiteral = regexp.MustCompile(`"[^"\n]*"`)
 
